@@ -383,12 +383,17 @@ def obligations(tier):
                   bounds={'lines': [0, L], 'templates': 'header(1-2 digit starts, optional 1-digit counts, optional '
                           'context/LF), free bytes 0..3, marker +-1 byte, "@@"+2 bytes'}))
     H = 2 if quick else 3
-    obs.append(Ob('hunk-sequences[H<=%d]' % H, ob_shapes, dict(H=H, bodies=(BODIES[:5] + BODIES[8:11]) if quick else BODIES),
+    if not quick:
+        obs.append(Ob('hunk-sequences[H<=2,all-bodies]', ob_shapes, dict(H=2, bodies=BODIES),
+                      must_reach=['unified_diffs:get_unified_diff_hunks'], path_timeout=40,
+                      desc='as below with all %d bodies (marker positions included) in sequences of 1..2 hunks' % len(BODIES),
+                      bounds={'hunks': [1, 2], 'bodies': len(BODIES)}))
+    obs.append(Ob('hunk-sequences[H<=%d]' % H, ob_shapes, dict(H=H, bodies=(BODIES[:5] + BODIES[8:11]) if quick else BODIES[:8]),
                   must_reach=['unified_diffs:get_unified_diff_hunks'], path_timeout=40,
                   desc='real get_unified_diff_hunks vs REF_HUNK on sequences of 1..%d well-formed hunks from a catalogue '
                        'of bodies with different context (symbolic start lines and payload bytes, optional garbage, '
                        'omitted counts), intact or with single-point damage' % H,
-                  bounds={'hunks': [1, H], 'bodies': 8 if quick else len(BODIES)}))
+                  bounds={'hunks': [1, H], 'bodies': 8}))
     step, post, why = _extract()
     if step is None:
         obs.append(('skipped', 'step[arbitrary-state]', why))
